@@ -58,7 +58,7 @@ def strategy_(draw, tier):
       max_nodes=9, min_nodes=2, tags=True, bts=('Config', 'Config', 'Partial'),
       kinds=['B', 'B', 'list', 'tuple', 'dict', 'Bmut', 'Bmut1', 'Bmut1', 'Bmutnest', 'Bpo', 'Bpo3', 'Bdc', 'TV', 'Bempty', 'ltuple', 'ntuple',
              # further node kinds of the shared generator that this check's oracle handles (each once)
-             'ddict', 'set', 'fset', 'nt', 'dcinst'],
+             'ddict', 'set', 'fset', 'nt', 'dcinst', 'Bdictcfg'],
       fns=['things:f2', 'things:h1', 'things:Base'], root_kinds=['B', 'Bmut', 'Bmut1', 'Bpo', 'Bpo3', 'Bdc', 'list'],
       p_alias=0.8, allow_copyof=False))
   if draw(st.floats(0, 1)) < (0.6 if t.startswith('materialize_tags') else 0.15):
@@ -379,10 +379,12 @@ def _classify_sharing_difference(t, root, tc, ps, feat):
 
 def _partial_with_default_equal_arg(root):
   for _, v in C.walk(root):
-    if type(v) is fdl.Partial and v.__fn_or_cls__ in (things.mutdef, things.mutdef1):
+    if type(v) is fdl.Partial and v.__fn_or_cls__ in (things.mutdef, things.mutdef1, things.mutnest):
       for k in ('a', 'b'):
         val = v.__arguments__.get(k)
-        if isinstance(val, list) and val in (things._MUTABLE_DEFAULT, things._SINGLE_DEFAULT):  # pylint: disable=protected-access
+        if isinstance(val, (list, dict)) and any(
+            type(val) is type(d) and val == d
+            for d in (things._MUTABLE_DEFAULT, things._SINGLE_DEFAULT, things._NEST_DEFAULT)):  # pylint: disable=protected-access
           return True
   return False
 
